@@ -104,6 +104,31 @@ func resolveNAT(p *Prog) *natRoles {
 			}
 		}
 	}
+	// one pairing helper for both directions: pairedIP(from, to, ip) called by both translations; the lists are
+	// the call's arguments
+	if r.pairMapped == nil && r.pairLocal == nil {
+		for _, f := range p.Funcs {
+			if pkgOf(f) != "vnet" || f.Signature.Recv() != nil || f.Parent() != nil {
+				continue
+			}
+			res, prm := f.Signature.Results(), f.Signature.Params()
+			if res.Len() == 1 && prm.Len() == 3 && res.At(0).Type().String() == "net.IP" && prm.At(2).Type().String() == "net.IP" &&
+				prm.At(0).Type().String() == "[]net.IP" && prm.At(1).Type().String() == "[]net.IP" {
+				calledBy := func(from *ssa.Function) bool {
+					found := false
+					instrsOf(from, func(in ssa.Instruction) {
+						if cl, ok := in.(*ssa.Call); ok && cl.Call.StaticCallee() == f {
+							found = true
+						}
+					})
+					return found
+				}
+				if calledBy(r.out) && calledBy(r.in) {
+					r.pairMapped, r.pairLocal = f, f
+				}
+			}
+		}
+	}
 	// the lookup helpers are, first of all, what the translations call to obtain a mapping for a key
 	byCall := func(from *ssa.Function) *ssa.Function {
 		var h *ssa.Function
@@ -316,7 +341,24 @@ func keyPartsS(v ssa.Value, depth int, subst map[ssa.Value]ssa.Value) []kpart {
 		return []kpart{{Lit: constant.StringVal(c.Value)}}
 	}
 	if b, ok := v.(*ssa.BinOp); ok && b.Op == token.ADD {
-		return append(keyPartsS(b.X, depth+1, subst), keyPartsS(b.Y, depth+1, subst)...)
+		// a + b: constants and nested concatenations are spelled out, any other operand is one part (like an
+		// argument of Sprintf: an address built elsewhere stays atomic)
+		part := func(x ssa.Value) []kpart {
+			sx := strip(x)
+			if _, isSub := subst[sx]; isSub {
+				return keyPartsS(sx, depth+1, subst)
+			}
+			switch y := sx.(type) {
+			case *ssa.Const:
+				return keyPartsS(y, depth+1, subst)
+			case *ssa.BinOp:
+				if y.Op == token.ADD {
+					return keyPartsS(y, depth+1, subst)
+				}
+			}
+			return []kpart{{V: sx}}
+		}
+		return append(part(b.X), part(b.Y)...)
 	}
 	if call, ok := v.(*ssa.Call); ok && callName(call) == "fmt.Sprintf" {
 		fc, ok := origin(call.Call.Args[0]).(*ssa.Const)
@@ -883,7 +925,7 @@ func runC02(c *Ctx) {
 				notExpired := func(ft fact) bool {
 					return boolFact(ft, func(v ssa.Value) bool {
 						cl, ok := v.(*ssa.Call)
-						return ok && callName(cl) == "(time.Time).After" && isFieldLoad(cl.Call.Args[1], mapT, mExp)
+						return ok && isExpiredTest(cl, mExp)
 					}, false)
 				}
 				notFound := func(ft fact) bool {
@@ -920,7 +962,7 @@ func runC02(c *Ctx) {
 			if !hasFact(in, func(ft fact) bool {
 				return boolFact(ft, func(v ssa.Value) bool {
 					cl, ok := v.(*ssa.Call)
-					return ok && callName(cl) == "(time.Time).After" && isFieldLoad(cl.Call.Args[1], mapT, mExp)
+					return ok && isExpiredTest(cl, mExp)
 				}, true)
 			}) {
 				o.Fail(in.Pos(), "%s removes a mapping that was not found expired", fname(f))
@@ -1067,21 +1109,50 @@ func runC02(c *Ctx) {
 		o.Fail(r.out.Pos(), "the allocator never succeeds")
 	}
 	// the NAPT source rewrite uses the mapping's mapped address
-	for _, in := range findU(r.out, func(in ssa.Instruction) bool { return isSetAddr(in, "setSourceAddr") }) {
-		if hasFact(in, func(ft fact) bool { return r.modeFact(ft, true) }) {
+	for _, ev := range rewriteEvents(r.out, "setSourceAddr") {
+		if ev.has(func(ft fact) bool { return r.modeFact(ft, true) }) {
 			continue
 		}
-		a := in.(*ssa.Call).Call.Args[0]
-		if !isFieldLoad(a, mapT, mMapped) {
-			o.Fail(in.Pos(), "in NAPT mode the source is not rewritten to the mapping's external address")
+		if !isFieldLoad(ev.arg, mapT, mMapped) {
+			o.Fail(ev.call.Pos(), "in NAPT mode the source is not rewritten to the mapping's external address")
 		}
 	}
 
 	// R6 1:1 mirror
 	o = c.Obl("R6", natT+".1to1", "1:1 mode: the two pairing helpers are mirror images over the index-aligned IP lists; outbound rewrites only the source (paired external IP, port preserved), inbound only the destination (paired local IP, port preserved); unpaired addresses are not translated", 4)
-	pairShape := func(f *ssa.Function, over, ret string) {
+	pairShape := func(f *ssa.Function, over, ret string, caller *ssa.Function) {
 		// path by path (a helper shared by the two directions is followed with this function's arguments)
 		okS := false
+		// a helper that takes the two lists as arguments: which list a parameter stands for is decided by the
+		// call in the translation that uses it
+		var site *ssa.Call
+		if f.Signature.Recv() == nil && caller != nil {
+			n := 0
+			instrsOfU(caller, func(in ssa.Instruction) {
+				if cl, ok := in.(*ssa.Call); ok && cl.Call.StaticCallee() == f {
+					site = cl
+					n++
+				}
+			})
+			if n != 1 {
+				o.Fail(caller.Pos(), "expected one call of %s in %s, found %d", fname(f), fname(caller), n)
+				return
+			}
+		}
+		ipParam := f.Params[len(f.Params)-1]
+		isList := func(v ssa.Value, name string) bool {
+			if isFieldLoad(v, natT, name) {
+				return true
+			}
+			if prm, ok := v.(*ssa.Parameter); ok && site != nil && prm.Parent() == f {
+				for k, q := range f.Params {
+					if q == prm && k < len(site.Call.Args) {
+						return isFieldLoad(site.Call.Args[k], natT, name)
+					}
+				}
+			}
+			return false
+		}
 		paths, okP := enumIterPathsU(f, 5000)
 		if !okP {
 			o.Undecide("the paths of %s could not be enumerated", fname(f))
@@ -1105,7 +1176,7 @@ func runC02(c *Ctx) {
 					continue
 				}
 				ia, ok := u.X.(*ssa.IndexAddr)
-				if !ok || !isFieldLoad(pth.value(ia.X), natT, ret) {
+				if !ok || !isList(pth.value(ia.X), ret) {
 					o.Fail(v.Pos(), "%s does not return an element of %s", fname(f), ret)
 					continue
 				}
@@ -1124,9 +1195,9 @@ func runC02(c *Ctx) {
 								return false
 							}
 							ia2, ok := uu.X.(*ssa.IndexAddr)
-							return ok && isFieldLoad(pth.value(ia2.X), natT, over) && ia2.Index == ia.Index
+							return ok && isList(pth.value(ia2.X), over) && ia2.Index == ia.Index
 						}
-						isArg := func(y ssa.Value) bool { return pth.value(y) == ssa.Value(f.Params[1]) }
+						isArg := func(y ssa.Value) bool { return pth.value(y) == ssa.Value(ipParam) }
 						return (fromOver(a0) && isArg(a1)) || (fromOver(a1) && isArg(a0))
 					}, true) {
 						eqFact = true
@@ -1146,17 +1217,18 @@ func runC02(c *Ctx) {
 			o.Fail(f.Pos(), "%s never returns a paired address", fname(f))
 		}
 	}
-	pairShape(r.pairMapped, fLocalIPs, fMappedIPs)
-	pairShape(r.pairLocal, fMappedIPs, fLocalIPs)
+	pairShape(r.pairMapped, fLocalIPs, fMappedIPs, r.out)
+	pairShape(r.pairLocal, fMappedIPs, fLocalIPs, r.in)
 	oneToOne := func(f *ssa.Function, setter, other, addrMeth string, pair *ssa.Function) {
 		n := 0
-		for _, in := range findU(f, func(in ssa.Instruction) bool { return isSetAddr(in, setter) }) {
-			if !hasFact(in, func(ft fact) bool { return r.modeFact(ft, true) }) {
+		for _, ev := range rewriteEvents(f, setter) {
+			in := ev.call
+			if !ev.has(func(ft fact) bool { return r.modeFact(ft, true) }) {
 				continue
 			}
 			n++
 			o.Site(in.Pos(), "1:1 %s", setter)
-			kp := keyParts(in.(*ssa.Call).Call.Args[0], 0)
+			kp := keyParts(ev.arg, 0)
 			okIP, okPortP := false, false
 			for _, k := range kp {
 				if k.V == nil {
@@ -1177,7 +1249,7 @@ func runC02(c *Ctx) {
 				o.Fail(in.Pos(), "1:1 %s in %s does not use the paired IP with the original port (ip ok=%v, port preserved=%v)", setter, fname(f), okIP, okPortP)
 			}
 			// guarded by paired != nil
-			if !hasFact(in, func(ft fact) bool {
+			if !ev.has(func(ft fact) bool {
 				return nilFact(ft, func(v ssa.Value) bool { cl, ok := v.(*ssa.Call); return ok && cl.Call.StaticCallee() == pair }, false)
 			}) {
 				o.Fail(in.Pos(), "1:1 translation proceeds although no paired address was found")
@@ -1343,21 +1415,21 @@ func runC03(c *Ctx) {
 		return nilFact(ft, func(v ssa.Value) bool { return findCall != nil && sameOrigin(v, ssa.Value(findCall)) }, false)
 	}
 	nRew := 0
-	for _, in := range findU(IN, func(in ssa.Instruction) bool { return isSetAddr(in, "setDestinationAddr") }) {
-		if hasFact(in, func(ft fact) bool { return r.modeFact(ft, true) }) {
+	for _, ev := range rewriteEvents(IN, "setDestinationAddr") {
+		in := ev.call
+		if ev.has(func(ft fact) bool { return r.modeFact(ft, true) }) {
 			continue
 		}
 		nRew++
 		o.Site(in.Pos(), "NAPT destination rewrite")
-		if !hasFact(in, isMapFound) {
+		if !ev.has(isMapFound) {
 			o.Fail(in.Pos(), "an inbound datagram is rewritten/forwarded without a live mapping for its destination")
 		}
-		if !hasFact(in, isFilterOK) {
+		if !ev.has(isFilterOK) {
 			o.Fail(in.Pos(), "an inbound datagram is admitted without the exact-match test of the sender's key in the mapping's permission set (filters[key], comma-ok) for the configured filtering behaviour")
 		}
 		// R5 owner
-		a := in.(*ssa.Call).Call.Args[0]
-		fr, ok := asFieldLoad(a)
+		fr, ok := asFieldLoad(ev.arg)
 		if !ok || fr.SName != mapT || fr.Field != mLocal || findCall == nil || !sameOrigin(fr.Base, ssa.Value(findCall)) {
 			o.Fail(in.Pos(), "the destination is not rewritten to the internal address (.local) of the mapping found for the datagram's destination")
 		}
@@ -1686,8 +1758,10 @@ func resolveNATFields(p *Prog, r *natRoles) {
 	for _, g := range p.CG().reachableSlice(r.out, "vnet") {
 		instrsOf(g, func(in ssa.Instruction) {
 			if isInvoke(in, "setSourceAddr") {
-				if fr, ok := asFieldLoad(in.(*ssa.Call).Call.Args[0]); ok && fr.SName == mapT {
-					mMapped = fr.Field
+				for _, lf := range phiLeaves(origin(in.(*ssa.Call).Call.Args[0])) {
+					if fr, ok := asFieldLoad(lf); ok && fr.SName == mapT {
+						mMapped = fr.Field
+					}
 				}
 			}
 			if st, ok := in.(*ssa.Store); ok {
@@ -1702,8 +1776,10 @@ func resolveNATFields(p *Prog, r *natRoles) {
 	for _, g := range p.CG().reachableSlice(r.in, "vnet") {
 		instrsOf(g, func(in ssa.Instruction) {
 			if isInvoke(in, "setDestinationAddr") {
-				if fr, ok := asFieldLoad(in.(*ssa.Call).Call.Args[0]); ok && fr.SName == mapT {
-					mLocal = fr.Field
+				for _, lf := range phiLeaves(origin(in.(*ssa.Call).Call.Args[0])) {
+					if fr, ok := asFieldLoad(lf); ok && fr.SName == mapT {
+						mLocal = fr.Field
+					}
 				}
 			}
 		})
@@ -1753,4 +1829,51 @@ func bodyOf(f *ssa.Function) *ssa.Function {
 		}
 	}
 	return cl.Call.StaticCallee()
+}
+
+// isExpiredTest: now.After(m.expires), or the same comparison written m.expires.Before(now).
+func isExpiredTest(cl *ssa.Call, mExp string) bool {
+	switch callName(cl) {
+	case "(time.Time).After":
+		return isFieldLoad(cl.Call.Args[1], mapT, mExp)
+	case "(time.Time).Before":
+		return isFieldLoad(cl.Call.Args[0], mapT, mExp)
+	}
+	return false
+}
+
+// rewriteEv: one way an address is rewritten: a setter call together with one value its argument can take (the
+// argument may be chosen in the mode branches and passed to a single setter call afterwards).
+type rewriteEv struct {
+	call *ssa.Call
+	arg  ssa.Value
+	leaf phiLeaf
+}
+
+// has: the fact holds where the setter is called, or on the edge on which this value was chosen.
+func (ev rewriteEv) has(pred func(fact) bool) bool {
+	if hasFact(ev.call, pred) {
+		return true
+	}
+	for _, ft := range ev.leaf.edgeFacts() {
+		if pred(ft) {
+			return true
+		}
+	}
+	if ev.leaf.pred != nil && len(ev.leaf.pred.Instrs) > 0 {
+		return hasFact(ev.leaf.pred.Instrs[len(ev.leaf.pred.Instrs)-1], pred)
+	}
+	return false
+}
+
+func rewriteEvents(f *ssa.Function, setter string) []rewriteEv {
+	var out []rewriteEv
+	for _, in := range findU(f, func(in ssa.Instruction) bool { return isSetAddr(in, setter) }) {
+		call := in.(*ssa.Call)
+		a := origin(call.Call.Args[0])
+		for _, lf := range phiLeavesWithPred(a) {
+			out = append(out, rewriteEv{call, lf.v, lf})
+		}
+	}
+	return out
 }
